@@ -14,6 +14,7 @@ package hserver
 
 import (
 	"fmt"
+	"os"
 	"strings"
 	"sync/atomic"
 	"testing"
@@ -175,11 +176,14 @@ func c06Body(t *rapid.T) {
 
 	// B keeps replicating
 	if !waitTicking(p, pchs, 10*time.Second, arrivedAll(tb, moreB)) {
-		if _, quiet := quiesce.Wait(func() int { return w.targets[0].NumCalls() + w.targets[1].NumCalls() }, 5*time.Second); quiet {
+		if _, quiet := quiesce.WaitStable(func() int { return w.targets[0].NumCalls() + w.targets[1].NumCalls() }, 6*time.Second); quiet {
 			sA, rA := taskView(w, t, idA)
 			sB, rB := taskView(w, t, idB)
 			t.Fatalf("VERIF-VIOLATION C06 [%s]: the failure of task A stopped task B: rows of B produced after the fault never arrive and the service is at rest (A: %s %q, B: %s %q)\n%s",
 				desc, sA, rA, sB, rB, quiesce.Dump())
+		}
+		if os.Getenv("VERIF_TRACE") != "" {
+			fmt.Printf("TRACE inconclusive_B busy=%s\n", quiesce.Busy())
 		}
 		st.Count("inconclusive_B(not at rest)", 1)
 		st.Class("class:" + class)
@@ -222,7 +226,7 @@ func c06Body(t *rapid.T) {
 		t.Fatalf("VERIF-VIOLATION C06 [%s]: list does not show the paused task: %s", desc, trunc(lr.Raw, 400))
 	}
 	// at rest: nothing of A accepted after the failing pack; checkpoint not beyond the acknowledged prefix
-	quiesce.Wait(func() int { return w.targets[0].NumCalls() + w.targets[1].NumCalls() }, 5*time.Second)
+	quiesce.WaitStable(func() int { return w.targets[0].NumCalls() + w.targets[1].NumCalls() }, 6*time.Second)
 	acc := acceptedRows(w.targets[ta])
 	if class != "checkpoint_rejected" {
 		for i, r := range failA {
@@ -268,7 +272,7 @@ func c06Body(t *rapid.T) {
 		t.Fatalf("VERIF-VIOLATION C06 [%s]: resume of the paused task failed after the fault was cleared: %s", desc, r.Raw)
 	}
 	if !waitTicking(p, pchs, 12*time.Second, arrivedAll(ta, failA)) {
-		if _, quiet := quiesce.Wait(func() int { return w.targets[0].NumCalls() + w.targets[1].NumCalls() }, 5*time.Second); quiet {
+		if _, quiet := quiesce.WaitStable(func() int { return w.targets[0].NumCalls() + w.targets[1].NumCalls() }, 6*time.Second); quiet {
 			missing := 0
 			a2 := acceptedRows(w.targets[ta])
 			for _, r := range failA {
